@@ -102,6 +102,7 @@ Hypothesis HLeaf : forall l cp, P (Leaf l cp).
 Hypothesis HSum : forall l, Forall (fun p => P (fst p)) l -> P (Sum l).
 Hypothesis HChain : forall l, Forall P l -> P (Chain l).
 Hypothesis HAdapter : forall o t, P o -> P (Adapter o t).
+Hypothesis HSandw : forall b c i, P b -> P c -> P i -> P (Sandw b c i).
 Fixpoint op_ind' (o : op) : P o :=
   match o with
   | Scal c dt => HScal c dt
@@ -115,6 +116,7 @@ Fixpoint op_ind' (o : op) : P o :=
   | Chain l => HChain l ((fix go (l : list op) : Forall P l :=
                             match l with [] => Forall_nil _ | a :: t => Forall_cons a (op_ind' a) (go t) end) l)
   | Adapter o t => HAdapter o t (op_ind' o)
+  | Sandw b c i => HSandw b c i (op_ind' b) (op_ind' c) (op_ind' i)
   end.
 End OpInd.
 
@@ -191,6 +193,7 @@ Proof.
     + apply comp_bwd_ext; assumption.
     + apply comp_fwd_ext; assumption.
   - intros o t IH m x y H i. cbn [Model.apply]. apply IH. exact H.
+  - intros b c0 i0 _ _ IH m x y H i. cbn [Model.apply]. apply IH. exact H.
 Qed.
 
 Definition vscale (x : vec) (c : T) : vec := fun j => x j * c.
@@ -216,6 +219,7 @@ Proof.
     + revert i. induction Hl as [|a t Ha Ht IH]; intros i; cbn [comp_fwd]; [reflexivity|].
       rewrite <- Ha. apply apply_ext. intros j. apply IH.
   - intros o t IH m x c' i. cbn [Model.apply]. apply IH.
+  - intros b c0 i0 _ _ IH m x c' i. cbn [Model.apply]. apply IH.
 Qed.
 
 (* ---- well-formed operators: every stored transform is one of 0..3 ---- *)
@@ -227,6 +231,7 @@ Fixpoint wf (o : op) : Prop :=
   | Sum l => (fix go (l : list (op * bool)) : Prop := match l with [] => True | p :: t => wf (fst p) /\ go t end) l
   | Chain l => (fix go (l : list op) : Prop := match l with [] => True | a :: t => wf a /\ go t end) l
   | Adapter o t => wf o /\ kvalid t
+  | Sandw b c i => wf b /\ wf c /\ wf i
   end.
 
 Lemma wf_Sum l : wf (Sum l) <-> Forall (fun p => wf (fst p)) l.
@@ -361,7 +366,7 @@ Lemma collect_chain_scal_sound k : kvalid k -> forall l fct0 fct r,
 Proof.
   intros Hk. induction l as [|a t IH]; intros fct0 fct r Hc E.
   - cbn in E. inversion E; subst. split; [assumption|]. intros; reflexivity.
-  - destruct a as [c dt|d tr dt|lf cp|sl|cl|o tr];
+  - destruct a as [c dt|d tr dt|lf cp|sl|cl|o tr|sb sc si];
       cbn [collect_chain_scal] in E.
     1: { destruct (is_real A c) eqn:R.
          - destruct (real_spec A L c R) as [Rre Rcj]. rewrite Rre in E.
@@ -398,7 +403,7 @@ Lemma absorb_scale_sound k : kvalid k -> forall l f r,
 Proof.
   intros Hk. induction l as [|a t IH]; intros f r Hw Hf E; [discriminate|].
   inversion Hw as [|? ? Hwa Hwt]; subst.
-  destruct a as [c dt|d tr dt|lf cp|sl|cl|o tr]; cbn [absorb_scale] in E.
+  destruct a as [c dt|d tr dt|lf cp|sl|cl|o tr|sb sc si]; cbn [absorb_scale] in E.
   2: { inversion E; subst. split; [constructor; [exact kvalid_0|assumption]|]. intros x i.
        cbn [wf] in Hwa.
        rewrite (comp_cons _ t k x i), (comp_cons (Diag d tr dt) t k x i).
@@ -446,8 +451,8 @@ Proof.
                   forall x, peq (comp (combine_prod A t (o :: acc)) k x) (comp (rev acc ++ o :: t) k x)).
     { destruct (IH (o :: acc) Hw2 (Forall_cons _ Hw1 Hwa)) as [G1 G2]. split; [assumption|].
       intros x i. rewrite G2. cbn [rev]. rewrite <- app_assoc. reflexivity. }
-    destruct o as [c dt|d2 t2 dt2|lf cp|sl|cl|o' tr]; cbn [combine_prod]; try exact Gen.
-    destruct acc as [|[c dt|d1 t1 dt1|lf cp|sl|cl|o' tr] acc']; try exact Gen.
+    destruct o as [c dt|d2 t2 dt2|lf cp|sl|cl|o' tr|sb sc si]; cbn [combine_prod]; try exact Gen.
+    destruct acc as [|[c dt|d1 t1 dt1|lf cp|sl|cl|o' tr|sb sc si] acc']; try exact Gen.
     inversion Hwa as [|? ? Hwd1 Hwa']; subst. cbn [wf] in Hw1, Hwd1.
     destruct (IH (Diag (fun i => actual_diag A d1 t1 i * actual_diag A d2 t2 i) 0 (dt_merge dt1 dt2) :: acc') Hw2)
       as [G1 G2]; [constructor; [exact kvalid_0|assumption]|].
@@ -638,7 +643,7 @@ Proof.
   intros Hk. induction l as [|[a ng] t IH]; intros s0 s dts r Hw E.
   - cbn in E. inversion E; subst. split; [constructor|]. intros; reflexivity.
   - inversion Hw as [|? ? Hwa Hwt]; subst. cbn [fst] in Hwa.
-    destruct a as [c dt|d tr dt|lf cp|sl|cl|o tr]; cbn [collect_sum_scal] in E.
+    destruct a as [c dt|d tr dt|lf cp|sl|cl|o tr|sb sc si]; cbn [collect_sum_scal] in E.
     1: { destruct (collect_sum_scal A t (s0 + sgn A ng c)) as [[s' dts'] r'] eqn:E'. inversion E; subst.
          destruct (IH _ _ _ _ Hwt E') as [W S]. split; [assumption|]. intros x i. rewrite <- S.
          cbn [sum_sem]. rewrite apply_Scal by (apply kadj_valid; assumption).
@@ -658,7 +663,7 @@ Proof.
   intros Hk. pose proof (kadj_valid k Hk) as Hv.
   induction l as [|[a ng] t IH]; intros s dtype r Hw E; [discriminate|].
   inversion Hw as [|? ? Hwa Hwt]; subst. cbn [fst] in Hwa.
-  destruct a as [c dt|d tr dt|lf cp|sl|cl|o tr]; cbn [absorb_add] in E.
+  destruct a as [c dt|d tr dt|lf cp|sl|cl|o tr|sb sc si]; cbn [absorb_add] in E.
   2: { destruct (dtag_eqb dt dtype).
        - inversion E; subst. split; [constructor; [exact kvalid_0|assumption]|]. intros x i.
          cbn [sum_sem]. cbn [wf] in Hwa.
@@ -682,7 +687,7 @@ Proof.
   - cbn in E. inversion E; subst. split; [constructor|]. intros x i. cbn [sum_sem].
     rewrite !apply_Diag by (assumption || exact kvalid_0). reflexivity.
   - inversion Hw as [|? ? Hwa Hwt]; subst. cbn [fst] in Hwa.
-    destruct a as [c dt|d2 t2 dt2|lf cp|sl|cl|o tr]; cbn [merge_diags] in E.
+    destruct a as [c dt|d2 t2 dt2|lf cp|sl|cl|o tr|sb sc si]; cbn [merge_diags] in E.
     2: { destruct (dtag_eqb dt0 dt2).
          - destruct (IH _ _ _ _ _ _ _ _ dtx Hwt E) as [W S]. split; [assumption|]. intros x i.
            rewrite <- S. cbn [sum_sem]. cbn [wf] in Hwa.
@@ -713,7 +718,7 @@ Proof.
   assert (Keep : wfl ((a, ng) :: combine_sum A f t) /\
                  forall x i, ssem ((a, ng) :: combine_sum A f t) k x i = ssem ((a, ng) :: t) k x i).
   { destruct (IH t Hwt) as [W S]. split; [constructor; assumption|]. intros x i. cbn [sum_sem]. rewrite S. reflexivity. }
-  destruct a as [c dt|d tr dt|lf cp|sl|cl|o tr]; try exact Keep.
+  destruct a as [c dt|d tr dt|lf cp|sl|cl|o tr|sb sc si]; try exact Keep.
   destruct (existsb _ t); [|exact Keep].
   destruct (merge_diags A (actual_diag A d tr) ng dt dt t) as [[[d' ng'] dt'] r] eqn:E.
   destruct (merge_diags_sound k Hk t _ _ _ _ _ _ _ _ dt Hwt E) as [W S].
@@ -786,6 +791,7 @@ Fixpoint capk (o : op) (k : Z) : bool :=
                            match l with [] => true | p :: t => capk (fst p) k && go t end) l
   | Chain l => (fix go (l : list op) : bool := match l with [] => true | a :: t => capk a k && go t end) l
   | Adapter o t => capk o (Z.lxor k t)
+  | Sandw _ _ i => capk i k
   end.
 
 Definition allcap (l : list op) (k : Z) : bool := forallb (fun a => capk a k) l.
@@ -1136,6 +1142,14 @@ Proof.
         rewrite ilog_mode, modeTable_xor by (try apply kvalid_xor; assumption).
         rewrite lxor_valid_assoc. reflexivity.
       * cbn [capk]. rewrite lxor_valid_assoc. reflexivity.
+  - (* Sandw: _flip_modes is not overridden -> OperatorAdapter *)
+    intros b c0 i0 _ _ _ Hw t k Ht Hk. destruct (Z.eqb t 0) eqn:E0.
+    { apply Z.eqb_eq in E0. subst t. rewrite flip_0, Z.lxor_0_r.
+      split; [exact Hw|]. split; [intros x i; reflexivity|reflexivity]. }
+    cbn [flip]. rewrite E0. split; [split; assumption|]. split; [|reflexivity].
+    intros x i. change (apply (Adapter (Sandw b c0 i0) t) (mode_of k) x i)
+      with (apply (Sandw b c0 i0) (modeTable t (ilog (mode_of k))) x i).
+    rewrite (ilog_mode k Hk), (modeTable_xor t k Ht Hk). reflexivity.
 Qed.
 
 (* ---- the `adjoint` property (SumOperator overrides it) ---- *)
@@ -1188,6 +1202,7 @@ Proof.
     + rewrite (capk_mk_sum l' k Hc1). exact Cl.
   - intros. apply adjoint_by_flip. reflexivity.
   - intros. apply adjoint_by_flip. reflexivity.
+  - intros. apply adjoint_by_flip. reflexivity.
 Qed.
 
 (* ---- expressions ---- *)
@@ -1207,6 +1222,10 @@ Fixpoint sem (e : expr) (k : Z) (x : vec) : vec :=
   | ENeg a => fun i => - sem a k x i
   | EAdj a => sem a (Z.lxor k 1) x
   | EInv a => sem a (Z.lxor k 2) x
+  | ESandwich b c =>                       (* bun^dagger cheese bun *)
+      if backwards (mode_of k)
+      then sem b k (sem c k (sem b (Z.lxor k 1) x))
+      else sem b (Z.lxor k 1) (sem c k (sem b k x))
   end.
 
 (* The advertised-mode rule of the property: a mode is advertised when all constituents provide
@@ -1219,6 +1238,7 @@ Fixpoint advk (e : expr) (k : Z) : bool :=
   | EScale _ a | ENeg a => advk a k
   | EAdj a => advk a (Z.lxor k 1)
   | EInv a => advk a (Z.lxor k 2)
+  | ESandwich b c => advk b (Z.lxor k 1) && advk c k && advk b k
   end.
 
 Fixpoint wfe (e : expr) : Prop :=
@@ -1226,6 +1246,9 @@ Fixpoint wfe (e : expr) : Prop :=
   | EPrim o => wf o
   | EAdd a b | ESub a b | EComp a b => wfe a /\ wfe b
   | EScale _ a | ENeg a | EAdj a | EInv a => wfe a
+  (* the nested-sandwich unpacking of SandwichOperator.make (cheese itself a sandwich) is in the
+     executable model but outside this theorem *)
+  | ESandwich b c => wfe b /\ wfe c /\ is_sandw A (build A c) = false
   end.
 
 Definition m1 : T := neg A (one A).
@@ -1260,6 +1283,82 @@ Proof.
     inversion Hwl; subst. constructor; [cbn [fst] in *; apply H1; assumption|apply IH1; assumption].
   - intros l Hl H. apply (flip_sound _ H 1%Z 0%Z kvalid_1 kvalid_0).
   - intros o t IH H. apply (flip_sound _ H 1%Z 0%Z kvalid_1 kvalid_0).
+  - intros b c0 i0 _ _ _ H. apply (flip_sound _ H 1%Z 0%Z kvalid_1 kvalid_0).
+Qed.
+
+(* ---- SandwichOperator.make ---- *)
+Lemma scal_fct_one k : kvalid k -> scal_fct 1 k = 1.
+Proof.
+  intros Hk. unfold scal_fct. destruct Hk as [<-|[<-|[<-|[<-|[]]]]]; cbn;
+    rewrite ?(conj_one A L), ?inv_one; reflexivity.
+Qed.
+
+Lemma scal_fct_sandwich f k : kvalid k ->
+  scal_fct f k * scal_fct f (Z.lxor k 1) = scal_fct (f * cj f) k.
+Proof.
+  intros Hk. unfold scal_fct. destruct Hk as [<-|[<-|[<-|[<-|[]]]]]; cbn;
+    rewrite ?(conj_mul A L), ?(conj_invol A L), ?(inv_mul A L); ring.
+Qed.
+
+Definition sandwich_sem (bun cheese : op) (k : Z) (x : vec) : vec :=
+  if backwards (mode_of k)
+  then apply bun (mode_of k) (apply cheese (mode_of k) (apply bun (mode_of (Z.lxor k 1)) x))
+  else apply bun (mode_of (Z.lxor k 1)) (apply cheese (mode_of k) (apply bun (mode_of k) x)).
+
+Lemma mk_sandwich_sound bun cheese : wf bun -> wf cheese -> is_sandw A cheese = false ->
+  wf (mk_sandwich A bun cheese) /\
+  forall k, kvalid k -> capk bun (Z.lxor k 1) = true -> capk cheese k = true -> capk bun k = true ->
+    capk (mk_sandwich A bun cheese) k = true /\
+    forall x, peq (apply (mk_sandwich A bun cheese) (mode_of k) x) (sandwich_sem bun cheese k x).
+Proof.
+  intros Wb Wc Hs. unfold mk_sandwich.
+  assert (E : (match cheese with Sandw b0 c0 _ => (matmul A b0 bun, c0) | _ => (bun, cheese) end) = (bun, cheese)).
+  { destruct cheese; try reflexivity. discriminate. }
+  rewrite E. clear E.
+  destruct (is_scal A bun) eqn:Isc.
+  - (* scaling bun: |f|^2 * cheese *)
+    destruct bun as [f dt| | | | | |]; try discriminate.
+    assert (Sem : forall k, kvalid k -> forall x i,
+              sandwich_sem (Scal f dt) cheese k x i = apply cheese (mode_of k) x i * scal_fct (f * cj f) k).
+    { intros k Hk x i. unfold sandwich_sem. rewrite <- (scal_fct_sandwich f k Hk).
+      pose proof (kvalid_xor _ _ Hk kvalid_1) as Hk1.
+      destruct (backwards (mode_of k)).
+      - rewrite apply_Scal by exact Hk.
+        transitivity (apply cheese (mode_of k) (vscale x (scal_fct f (Z.lxor k 1))) i * scal_fct f k).
+        + f_equal. apply apply_ext. intros j. apply apply_Scal. exact Hk1.
+        + rewrite (apply_homog cheese). ring.
+      - rewrite apply_Scal by exact Hk1.
+        transitivity (apply cheese (mode_of k) (vscale x (scal_fct f k)) i * scal_fct f (Z.lxor k 1)).
+        + f_equal. apply apply_ext. intros j. apply apply_Scal. exact Hk.
+        + rewrite (apply_homog cheese). ring. }
+    destruct (eqb A (f * cj f) 1) eqn:E1.
+    + apply eqb_true in E1. split; [exact Wc|]. intros k Hk _ Cc _. split; [exact Cc|].
+      intros x i. rewrite (Sem k Hk), E1, (scal_fct_one k Hk). ring.
+    + destruct (scale_sound 0%Z (f * cj f) cheese kvalid_0 Wc) as [Ws _].
+      split; [cbn [wf]; repeat split; assumption|]. intros k Hk _ Cc _.
+      destruct (scale_sound k (f * cj f) cheese Hk Wc) as [_ S]. split.
+      * cbn [capk]. rewrite capk_scale. exact Cc.
+      * intros x i. cbn [Model.apply]. rewrite S, (Sem k Hk). reflexivity.
+  - (* general bun: (bun.adjoint @ cheese) @ bun *)
+    assert (E : (match bun with
+                 | Scal f _ => if eqb A (f * cj f) 1 then cheese else Sandw bun cheese (scale A (f * cj f) cheese)
+                 | _ => Sandw bun cheese (matmul A (matmul A (adjoint_prop A bun) cheese) bun)
+                 end) = Sandw bun cheese (matmul A (matmul A (adjoint_prop A bun) cheese) bun)).
+    { destruct bun; try reflexivity. discriminate. }
+    rewrite E. clear E.
+    pose proof (adjoint_wf bun Wb) as Wa.
+    destruct (matmul_sound 0%Z (adjoint_prop A bun) cheese kvalid_0 Wa Wc) as [W1 _].
+    destruct (matmul_sound 0%Z _ bun kvalid_0 W1 Wb) as [W2 _].
+    split; [cbn [wf]; repeat split; assumption|]. intros k Hk Cb1 Cc Cb.
+    destruct (adjoint_sound bun Wb k Hk Cb1) as [_ [Sa Ca]].
+    destruct (matmul_sound k (adjoint_prop A bun) cheese Hk Wa Wc) as [_ S1].
+    destruct (matmul_sound k _ bun Hk W1 Wb) as [_ S2]. split.
+    + cbn [capk]. rewrite !capk_matmul, Ca, Cc, Cb. reflexivity.
+    + intros x i. cbn [Model.apply]. rewrite S2, (comp_cons _ _ k x i), !comp_single. unfold sandwich_sem.
+      destruct (backwards (mode_of k)) eqn:Bw.
+      * apply apply_ext. intros j. rewrite S1, (comp_cons _ _ k x j), Bw, comp_single.
+        apply apply_ext. intros j'. apply Sa.
+      * rewrite S1, (comp_cons _ _ k _ i), Bw, comp_single. apply Sa.
 Qed.
 
 Definition build_ok (e : expr) : Prop :=
@@ -1291,7 +1390,8 @@ Qed.
 
 Lemma build_sound : forall e, build_ok e.
 Proof.
-  induction e as [o|a IHa b IHb|a IHa b IHb|a IHa b IHb|c a IHa|a IHa|a IHa|a IHa]; intros Hw; cbn [wfe] in Hw.
+  induction e as [o|a IHa b IHb|a IHa b IHb|a IHa b IHb|c a IHa|a IHa|a IHa|a IHa|b IHb c0 IHc];
+    intros Hw; cbn [wfe] in Hw.
   - (* EPrim *) cbn [build]. split; [assumption|]. intros k Hk Hc. split; [exact Hc|]. intros x i. reflexivity.
   - (* EAdd *) destruct Hw as [Wa Wb]. destruct (build_sum_case a b false IHa IHb Wa Wb) as [W S].
     cbn [build]. split; [assumption|]. intros k Hk Hadv. destruct (S k Hk Hadv) as [C E]. split; [assumption|].
@@ -1333,6 +1433,17 @@ Proof.
     destruct (Sa (Z.lxor k 2) (kvalid_xor _ _ Hk kvalid_2) Hadv) as [Ca Ea].
     destruct (flip_sound _ Wba 2%Z k kvalid_2 Hk) as [_ [S C]]. split; [rewrite C; exact Ca|].
     intros x i. rewrite S, Ea. reflexivity.
+  - (* ESandwich *) destruct Hw as [Wb [Wc Hns]].
+    destruct (IHb Wb) as [Wbb Sb]. destruct (IHc Wc) as [Wbc Sc]. cbn [build].
+    destruct (mk_sandwich_sound (build A b) (build A c0) Wbb Wbc Hns) as [W S]. split; [exact W|].
+    intros k Hk Hadv. cbn [advk] in Hadv.
+    apply andb_true_iff in Hadv as [Hadv Hb']. apply andb_true_iff in Hadv as [Hb1 Hc'].
+    pose proof (kvalid_xor _ _ Hk kvalid_1) as Hk1.
+    destruct (Sb k Hk Hb') as [Cb Eb]. destruct (Sb _ Hk1 Hb1) as [Cb1 Eb1]. destruct (Sc k Hk Hc') as [Cc Ec].
+    destruct (S k Hk Cb1 Cc Cb) as [C E]. split; [exact C|].
+    intros x i. rewrite E. unfold sandwich_sem. cbn [sem]. destruct (backwards (mode_of k)).
+    + rewrite <- Eb. apply apply_ext. intros j. rewrite <- Ec. apply apply_ext. intros j'. apply Eb1.
+    + rewrite <- Eb1. apply apply_ext. intros j. rewrite <- Ec. apply apply_ext. intros j'. apply Eb.
 Qed.
 
 (* ---- capk is the bit of the real capability ---- *)
@@ -1376,6 +1487,7 @@ Proof.
   - intros o t IH [Hwo Ht]. destruct (IH Hwo) as [R B]. cbn [cap capk]. split.
     + apply capTable_range; assumption.
     + intros k Hk. rewrite (tables_cap t (cap A o) k Ht R Hk). apply B. apply kvalid_xor; assumption.
+  - intros b c0 i0 _ _ IH [_ [_ Hwi]]. cbn [cap capk]. apply IH. exact Hwi.
 Qed.
 
 (* ---- the statements exported to Props.v ---- *)
